@@ -4,7 +4,10 @@ import (
 	"bytes"
 	"fmt"
 	"math/rand"
+	"os"
+	"path/filepath"
 	"strconv"
+	"strings"
 )
 
 // symsToBytes maps the spec's byte symbols to bytes: one-character strings
@@ -122,6 +125,7 @@ func checkC12(c *Ctx) {
 		Fault int      `json:"fault"`
 	}
 	nprog := 0
+	var binVecs []progVec
 	st2 := pool.NewStream(func(j *Job, r Result) {
 		var v progVec
 		VecDecode([]byte(j.Tag), &v)
@@ -141,6 +145,9 @@ func checkC12(c *Ctx) {
 		}
 		c.Case("p:"+string(j.Prog), true)
 		nprog++
+		if nprog%40 == 0 && len(binVecs) < 600 {
+			binVecs = append(binVecs, v)
+		}
 		if nprog%4000 == 1 {
 			c.Sample(map[string]any{"family": "positioned program", "program": string(j.Prog), "expected_line": v.Line,
 				"expected_col_range": []int{v.ColLo, v.ColHi}, "class": v.Class})
@@ -155,6 +162,37 @@ func checkC12(c *Ctx) {
 			st2.Submit(Job{Kind: "run", Prog: symsToBytes(v.Text), Tag: string(raw)})
 		}})
 	st2.Wait()
+
+	// the binary shows the same line text and number (and the caret under the reported column)
+	dir := c.TempDir("c12bin")
+	os.WriteFile(filepath.Join(dir, "in.json"), []byte("[1]"), 0o644)
+	parallelDo(len(binVecs), 16, func(i int) {
+		v := binVecs[i]
+		prog := symsToBytes(v.Text)
+		pf := filepath.Join(dir, fmt.Sprintf("p%d.jqawk", i))
+		os.WriteFile(pf, prog, 0o644)
+		br := c.RunBin([]string{"-f", pf, "in.json"}, nil, dir, 0)
+		lines := strings.Split(string(br.Stderr), "\n")
+		src := string(symsToBytes(v.Src))
+		why := ""
+		switch {
+		case br.Exit == 0 || hasCrashMarks(br.Stderr):
+			why = "no clean failure"
+		case len(lines) < 3:
+			why = "diagnostic has fewer than three lines"
+		case lines[0] != "  "+src:
+			why = "first diagnostic line is not the source line"
+		case !strings.HasSuffix(lines[1], "^") || len(lines[1])-3 < v.ColLo || len(lines[1])-3 >= v.ColHi:
+			why = "the caret is not under the offending construct"
+		case !strings.HasPrefix(lines[2], fmt.Sprintf("%s error on line %d:", v.Class, v.Line)):
+			why = "third diagnostic line does not name the error kind and line"
+		}
+		if why != "" {
+			c.Violation("position-binary", map[string]any{"program": string(prog), "expected": v, "stderr": string(br.Stderr), "exit": br.Exit, "why": why})
+			return
+		}
+		c.Case("pbin:"+string(prog), true)
+	})
 
 	// ---- (3) consistency on every error of arbitrary generated programs (binding B):
 	// the quoted line is line N of the program text (JqText.Lines, transcribed: split on LF).
